@@ -520,6 +520,10 @@ func (c *Ctx) checkFanoutSemantics(r *Report, ro *Roles, rule string) {
 			case "C01":
 				r.Decide([]string{"C01.gate-logger:", "C01.gate-ref:", "C01.once:"}, match, tn+" evaluated over all reference sets, ranges and levels")
 				if hasRefs {
+					// counts of recognised fan-out functions / delivery chains are vacuity guards of the shape rules
+					r.Decide([]string{"C01.anchor:"}, func(k string) bool {
+						return strings.Contains(k, "fan-out functions") || strings.Contains(k, "delivery chains")
+					}, "fan-out evaluated through "+tn)
 					// the fan-out helpers of the reference holder are the ones evaluated here
 					r.Decide([]string{"C01.once:"}, func(k string) bool {
 						return w.chain != nil && w.chain.Signature.Recv() != nil && strings.Contains(k, ":("+types.TypeString(w.chain.Signature.Recv().Type(), shortQual)+").")
